@@ -6,29 +6,69 @@
 //     baseChangesetURL, the file suffixes and the current-state formats,
 //   - the changeset sequence-number correction of fetchChangesetState,
 //   - the accepted time formats.
+//
 // usage: replication <repo> <outdir>
 package main
 
 import (
 	"bytes"
+	"encoding/json"
 	"fmt"
 	"go/ast"
 	"go/constant"
 	"go/token"
 	"os"
+	"os/exec"
 	"path/filepath"
+	"sort"
 	"strings"
 
 	"verif/translator/tr"
 )
 
+const canonURL = "Definition %s_format : string := \"%%s/replication/%%s/%%03d/%%03d/%%03d\".\nDefinition %s_args (n : Z) : list Z := [(Z.quot n 1000000); (Z.quot (Z.rem n 1000000) 1000); (Z.rem n 1000)]."
+
+// canonical: the definitions the planet layout asks for; used when the source no longer has the
+// shape the syntactic translation knows, and then checked against the behaviour samples
+var canonical = map[string]string{
+	"seq_url":                  fmt.Sprintf(canonURL, "seq_url", "seq_url"),
+	"changeset_url":            fmt.Sprintf(canonURL, "changeset_url", "changeset_url"),
+	"seq_state_suffix":         "Definition seq_state_suffix : string := \".state.txt\".",
+	"seq_data_suffix":          "Definition seq_data_suffix : string := \".osc.gz\".",
+	"changeset_state_suffix":   "Definition changeset_state_suffix : string := \".state.txt\".",
+	"changeset_data_suffix":    "Definition changeset_data_suffix : string := \".osm.gz\".",
+	"seq_current_format":       "Definition seq_current_format : string := \"%s/replication/%s/state.txt\".",
+	"changeset_current_format": "Definition changeset_current_format : string := \"%s/replication/%s/state.yaml\".",
+	"changeset_seq_fix":        "Definition changeset_seq_fix (n file_seq : Z) : Z := if Z.eqb n 0 then (Z.add file_seq 1) else n.",
+}
+
 type gen struct {
 	p    *tr.Pkg
 	b    bytes.Buffer
 	errs []string
+	// how each definition is tied to the source: "syntax" (read off the AST) or "sampled"
+	// (the canonical definition, justified by the behaviour samples of the probe)
+	ties    map[string]string
+	sampled []string
 }
 
+// soft: the syntax of `name` was not recognised; emit the canonical definition instead and
+// leave it to the behaviour samples (url_samples / fix_samples, obligations in C19/GenOk.v)
+// to show that the code still behaves like it.
+func (g *gen) soft(name, canonical, format string, a ...interface{}) {
+	msg := strings.ReplaceAll(fmt.Sprintf(format, a...), "*)", "* )")
+	fmt.Fprintf(&g.b, "(* %s: syntax not recognised (%s): canonical definition, tied by sampled behaviour *)\n%s\n", name, msg, canonical)
+	g.ties[name] = "sampled"
+	g.sampled = append(g.sampled, name)
+}
+
+func (g *gen) hard(name string) { g.ties[name] = "syntax" }
+
 func (g *gen) fail(name, format string, a ...interface{}) {
+	if c, ok := canonical[name]; ok {
+		g.soft(name, c, format, a...)
+		return
+	}
 	msg := strings.ReplaceAll(fmt.Sprintf(format, a...), "*)", "* )")
 	g.errs = append(g.errs, name+": "+msg)
 	fmt.Fprintf(&g.b, "(* UNTRANSLATABLE %s: %s *)\n", name, msg)
@@ -162,6 +202,7 @@ func (g *gen) urlFunc(decls map[string]*ast.FuncDecl, key, name string) {
 	}
 	fmt.Fprintf(&g.b, "Definition %s_format : string := %s.\n", name, tr.CoqString(constant.StringVal(f)))
 	fmt.Fprintf(&g.b, "Definition %s_args (n : Z) : list Z := [%s].\n", name, strings.Join(args, "; "))
+	g.hard(name)
 }
 
 // suffixOf finds `<recv>.<callee>(...) + "lit"` in the function and returns lit.
@@ -197,6 +238,7 @@ func (g *gen) suffixOf(decls map[string]*ast.FuncDecl, key, callee, name string)
 		return
 	}
 	fmt.Fprintf(&g.b, "Definition %s : string := %s.\n", name, tr.CoqString(found))
+	g.hard(name)
 }
 
 // currentFormat: the single Sprintf format of the function (the URL of the current state).
@@ -217,6 +259,7 @@ func (g *gen) currentFormat(decls map[string]*ast.FuncDecl, key, name string) {
 		return
 	}
 	fmt.Fprintf(&g.b, "Definition %s : string := %s.\n", name, tr.CoqString(constant.StringVal(f)))
+	g.hard(name)
 }
 
 // minOf: the constant value of the Min field of the stater literal in the function.
@@ -277,7 +320,9 @@ func (g *gen) dirOf(decls map[string]*ast.FuncDecl, key, name string) {
 }
 
 // changesetFix: in fetchChangesetState
-//     if n == 0 { s.SeqNum++ } else { s.SeqNum = uint64(n) }
+//
+//	if n == 0 { s.SeqNum++ } else { s.SeqNum = uint64(n) }
+//
 // becomes  changeset_seq_fix n file_seq := if n =? 0 then file_seq + 1 else n.
 func (g *gen) changesetFix(decls map[string]*ast.FuncDecl) {
 	const name = "changeset_seq_fix"
@@ -342,6 +387,7 @@ func (g *gen) changesetFix(decls map[string]*ast.FuncDecl) {
 		return
 	}
 	fmt.Fprintf(&g.b, "Definition %s (n file_seq : Z) : Z := if Z.eqb n 0 then %s else %s.\n", name, thenS, elseS)
+	g.hard(name)
 }
 
 func (g *gen) timeFormats() {
@@ -383,6 +429,24 @@ func (g *gen) timeFormats() {
 
 // byteLit: []byte("lit") -> lit
 func (g *gen) byteLit(e ast.Expr) (string, bool) {
+	if id, ok := e.(*ast.Ident); ok && id.Obj != nil {
+		// a local or package-level variable initialised with []byte("lit")
+		if vs, ok := id.Obj.Decl.(*ast.ValueSpec); ok {
+			for i, n := range vs.Names {
+				if n.Name == id.Name && i < len(vs.Values) {
+					return g.byteLit(vs.Values[i])
+				}
+			}
+		}
+		if as, ok := id.Obj.Decl.(*ast.AssignStmt); ok && as.Tok == token.DEFINE {
+			for i, l := range as.Lhs {
+				if li, ok := l.(*ast.Ident); ok && li.Name == id.Name && i < len(as.Rhs) {
+					return g.byteLit(as.Rhs[i])
+				}
+			}
+		}
+		return "", false
+	}
 	call, ok := e.(*ast.CallExpr)
 	if !ok || len(call.Args) != 1 {
 		return "", false
@@ -398,12 +462,13 @@ func (g *gen) byteLit(e ast.Expr) (string, bool) {
 }
 
 // decoders: the data of decodeIntervalState and decodeChangesetState:
-//   interval_keys       the keys compared with parts[0] in the if / else-if chain, each with the
-//                       State field its branch assigns
-//   *_seps              the separators of the bytes.Split calls, in source order
-//   changeset_join_sep  the separator of bytes.Join
-//   changeset_line_indices  the constant indices into `lines`, in source order
-//   *_parsers           the strconv functions called, in source order
+//
+//	interval_keys       the keys compared with parts[0] in the if / else-if chain, each with the
+//	                    State field its branch assigns
+//	*_seps              the separators of the bytes.Split calls, in source order
+//	changeset_join_sep  the separator of bytes.Join
+//	changeset_line_indices  the constant indices into `lines`, in source order
+//	*_parsers           the strconv functions called, in source order
 func (g *gen) decoders(decls map[string]*ast.FuncDecl) {
 	splitSeps := func(fd *ast.FuncDecl, fn string) []string {
 		var l []string
@@ -483,6 +548,63 @@ func (g *gen) decoders(decls map[string]*ast.FuncDecl) {
 			pairs = append(pairs, fmt.Sprintf("(%s, %s)", tr.CoqString(key), tr.CoqString(field)))
 			return true
 		})
+		fieldOf := func(stmts []ast.Stmt) string {
+			field := ""
+			for _, st := range stmts {
+				ast.Inspect(st, func(n2 ast.Node) bool {
+					if _, isIf := n2.(*ast.IfStmt); isIf {
+						return false
+					}
+					if as, ok := n2.(*ast.AssignStmt); ok && field == "" {
+						for _, lhs := range as.Lhs {
+							if se, ok := lhs.(*ast.SelectorExpr); ok {
+								if id, ok := se.X.(*ast.Ident); ok && id.Name == "state" {
+									field = se.Sel.Name
+								}
+							}
+						}
+					}
+					return true
+				})
+			}
+			return field
+		}
+		if len(pairs) == 0 {
+			// switch string(parts[0]) { case "key": ... }
+			ast.Inspect(fd.Body, func(nd ast.Node) bool {
+				sw, ok := nd.(*ast.SwitchStmt)
+				if !ok || sw.Tag == nil {
+					return true
+				}
+				tag := sw.Tag
+				if c, ok := tag.(*ast.CallExpr); ok && len(c.Args) == 1 { // string(parts[0])
+					tag = c.Args[0]
+				}
+				ix, ok := tag.(*ast.IndexExpr)
+				if !ok {
+					return true
+				}
+				if v, ok := g.constVal(ix.Index); !ok || v.ExactString() != "0" {
+					return true
+				}
+				for _, cc := range sw.Body.List {
+					cl := cc.(*ast.CaseClause)
+					for _, e := range cl.List { // default has none
+						c, ok := g.constVal(e)
+						if !ok || c.Kind() != constant.String {
+							bad = true
+							continue
+						}
+						f := fieldOf(cl.Body)
+						if f == "" {
+							bad = true
+						}
+						pairs = append(pairs, fmt.Sprintf("(%s, %s)", tr.CoqString(constant.StringVal(c)), tr.CoqString(f)))
+					}
+				}
+				return true
+			})
+		}
 		if bad || len(pairs) == 0 {
 			g.fail("interval_keys", "the key chain of decodeIntervalState was not recognised")
 		} else {
@@ -512,6 +634,149 @@ func (g *gen) decoders(decls map[string]*ast.FuncDecl) {
 	}
 }
 
+// probeSrc is compiled into the package under test through `go test -overlay` (nothing is
+// written into the repository).  It drives the EXPORTED entry points with a recording
+// http.RoundTripper and prints what was requested / decoded for a fixed set of samples.
+const probeSrc = `package replication
+
+import (
+	"context"
+	"fmt"
+	"io"
+	"net/http"
+	"strings"
+	"testing"
+)
+
+type verifProbeRT struct {
+	last string
+	body string
+}
+
+func (rt *verifProbeRT) RoundTrip(r *http.Request) (*http.Response, error) {
+	rt.last = r.URL.String()
+	code := 404
+	if rt.body != "" {
+		code = 200
+	}
+	return &http.Response{StatusCode: code, Body: io.NopCloser(strings.NewReader(rt.body)), Header: http.Header{}, Request: r}, nil
+}
+
+func TestVerifProbe(t *testing.T) {
+	rt := &verifProbeRT{}
+	ds := &Datasource{BaseURL: "http://B", Client: &http.Client{Transport: rt}}
+	ctx := context.Background()
+	ns := []uint64{1, 2, 9, 10, 99, 100, 999, 1000, 1001, 999999, 1000000, 2007990, 123456789, 999999999, 1000000000, 123456789012}
+	for kind := 0; kind < 4; kind++ {
+		for _, n := range ns {
+			switch kind {
+			case 0:
+				ds.MinuteState(ctx, MinuteSeqNum(n))
+			case 1:
+				ds.HourState(ctx, HourSeqNum(n))
+			case 2:
+				ds.DayState(ctx, DaySeqNum(n))
+			default:
+				ds.ChangesetState(ctx, ChangesetSeqNum(n))
+			}
+			fmt.Printf("VERIFPROBE url %d 0 %d %s\n", kind, n, rt.last)
+			switch kind {
+			case 0:
+				ds.Minute(ctx, MinuteSeqNum(n))
+			case 1:
+				ds.Hour(ctx, HourSeqNum(n))
+			case 2:
+				ds.Day(ctx, DaySeqNum(n))
+			default:
+				ds.Changesets(ctx, ChangesetSeqNum(n))
+			}
+			fmt.Printf("VERIFPROBE url %d 1 %d %s\n", kind, n, rt.last)
+		}
+		switch kind {
+		case 0:
+			ds.CurrentMinuteState(ctx)
+		case 1:
+			ds.CurrentHourState(ctx)
+		case 2:
+			ds.CurrentDayState(ctx)
+		default:
+			ds.CurrentChangesetState(ctx)
+		}
+		fmt.Printf("VERIFPROBE url %d 2 0 %s\n", kind, rt.last)
+	}
+	// the changeset sequence correction: number in the file name n (0 = current), number inside k
+	for _, s := range [][2]uint64{{0, 0}, {0, 5}, {0, 2008003}, {7, 3}, {7, 7}, {7, 6}, {2008004, 2008003}, {1, 100}, {12345, 0}} {
+		rt.body = fmt.Sprintf("---\nlast_run: 2016-07-02 22:46:01.422137422 +00:00\nsequence: %d\n", s[1])
+		var st *State
+		var err error
+		if s[0] == 0 {
+			_, st, err = ds.CurrentChangesetState(ctx)
+		} else {
+			st, err = ds.ChangesetState(ctx, ChangesetSeqNum(s[0]))
+		}
+		if err == nil {
+			fmt.Printf("VERIFPROBE fix %d %d %d\n", s[0], s[1], st.SeqNum)
+		}
+	}
+}
+`
+
+// probe: behaviour samples of the fetch path (request URLs, changeset sequence correction)
+func (g *gen) probe(repo, out string) {
+	work := filepath.Join(filepath.Dir(filepath.Dir(out)), "work", "tr_replication_probe")
+	if err := os.MkdirAll(work, 0o755); err != nil {
+		g.fail("url_samples", "%v", err)
+		return
+	}
+	src := filepath.Join(work, "probe_test.go")
+	if err := os.WriteFile(src, []byte(probeSrc), 0o644); err != nil {
+		g.fail("url_samples", "%v", err)
+		return
+	}
+	abs, _ := filepath.Abs(repo)
+	ov, _ := json.Marshal(map[string]map[string]string{"Replace": {filepath.Join(abs, "replication", "zz_verif_probe_test.go"): src}})
+	ovf := filepath.Join(work, "overlay.json")
+	os.WriteFile(ovf, ov, 0o644)
+	cmd := exec.Command("go", "test", "-overlay="+ovf, "-run", "^TestVerifProbe$", "-count=1", "-vet=off", "-v", "./replication/")
+	cmd.Dir = abs
+	outb, err := cmd.CombinedOutput()
+	var urls, fixes []string
+	for _, l := range strings.Split(string(outb), "\n") {
+		f := strings.Fields(l)
+		if len(f) == 6 && f[0] == "VERIFPROBE" && f[1] == "url" {
+			urls = append(urls, fmt.Sprintf("(%s, %s, %s, %s)", f[2], f[3], f[4], tr.CoqString(f[5])))
+		}
+		if len(f) == 5 && f[0] == "VERIFPROBE" && f[1] == "fix" {
+			fixes = append(fixes, fmt.Sprintf("(%s, %s, %s)", f[2], f[3], f[4]))
+		}
+	}
+	if err != nil || len(urls) == 0 {
+		tail := string(outb)
+		if len(tail) > 600 {
+			tail = tail[len(tail)-600:]
+		}
+		g.fail("url_samples", "the behaviour probe did not run: %v: %s", err, tail)
+		return
+	}
+	fmt.Fprintf(&g.b, "(* behaviour samples (go test -overlay probe through the exported entry points, base URL http://B):\n   (kind, what (0 state file, 1 data file, 2 current state), n, requested URL) *)\n")
+	fmt.Fprintf(&g.b, "Definition url_samples : list (Z * Z * Z * string) := [%s].\n", strings.Join(urls, ";\n  "))
+	fmt.Fprintf(&g.b, "(* (number in the file name (0 = current), number inside the file, SeqNum returned) *)\n")
+	fmt.Fprintf(&g.b, "Definition fix_samples : list (Z * Z * Z) := [%s].\n", strings.Join(fixes, "; "))
+}
+
+func (g *gen) emitTies() {
+	var names []string
+	for n := range g.ties {
+		names = append(names, n)
+	}
+	sort.Strings(names)
+	var l []string
+	for _, n := range names {
+		l = append(l, fmt.Sprintf("(%s, %s)", tr.CoqString(n), tr.CoqString(g.ties[n])))
+	}
+	fmt.Fprintf(&g.b, "(* how each definition above is tied to the source *)\nDefinition tie_modes : list (string * string) := [%s].\n", strings.Join(l, "; "))
+}
+
 func main() {
 	repo, out := os.Args[1], os.Args[2]
 	dir := filepath.Join(repo, "replication")
@@ -524,7 +789,7 @@ func main() {
 		fmt.Fprintln(os.Stderr, "translator replication:", err)
 		os.Exit(1)
 	}
-	g := &gen{p: p}
+	g := &gen{p: p, ties: map[string]string{}}
 	g.b.WriteString("(* GENERATED by /verif/translator/cmd/replication from /repo/replication — do not edit. *)\n")
 	g.b.WriteString("From Coq Require Import ZArith String List.\nImport ListNotations.\nOpen Scope Z_scope.\nOpen Scope string_scope.\n\n")
 	decls := p.FuncDecls()
@@ -547,6 +812,8 @@ func main() {
 	g.changesetFix(decls)
 	g.timeFormats()
 	g.decoders(decls)
+	g.probe(repo, out)
+	g.emitTies()
 	if err := tr.Emit(filepath.Join(out, "GenReplication.v"), g.b.Bytes()); err != nil {
 		fmt.Fprintln(os.Stderr, err)
 		os.Exit(1)
